@@ -93,6 +93,49 @@ def eval_case(item):
             os.chdir(old)
 
 
+def chdir_case(item):
+    """parse_file under one working directory, follow the imports under another one (imports are followed lazily)."""
+    cwd1, cwd2, spelling = item
+    from nix_manipulator import parse_file
+
+    with tempfile.TemporaryDirectory() as root:
+        root = os.path.realpath(root)
+        for rel, content in layout(root).items():
+            p = os.path.join(root, rel)
+            os.makedirs(os.path.dirname(p), exist_ok=True)
+            with open(p, "w") as fh:
+                fh.write(content)
+        os.makedirs(os.path.join(root, "unrelated"), exist_ok=True)
+        dirs = {"root": root, "sub": os.path.join(root, "sub"), "unrelated": os.path.join(root, "unrelated"), "deep": os.path.join(root, "sub", "deep"),
+                "parent": os.path.dirname(root)}
+        old = os.getcwd()
+        bad = []
+        try:
+            for keys, expected in LOOKUPS:
+                os.chdir(dirs[cwd1])
+                entry_abs = os.path.join(root, "entry.nix")
+                entry = entry_abs if spelling == "absolute" else os.path.relpath(entry_abs, dirs[cwd1])
+                try:
+                    cur = parse_file(entry)
+                    os.chdir(dirs[cwd2])
+                    if spelling != "absolute":
+                        # a relatively spelled entry is only meaningful under the directory it was given in
+                        os.chdir(dirs[cwd1])
+                    for k in keys:
+                        cur = cur[k]
+                    got = cur.rebuild().strip() if hasattr(cur, "rebuild") else repr(cur)
+                except Exception as e:
+                    got = e
+                if isinstance(expected, type):
+                    if not isinstance(got, expected):
+                        bad.append(f"{'.'.join(keys)}:expected-{expected.__name__}-got-{type(got).__name__ if isinstance(got, Exception) else got}")
+                elif got != expected:
+                    bad.append(f"{'.'.join(keys)}:got-{type(got).__name__ if isinstance(got, Exception) else got}")
+            return bad
+        finally:
+            os.chdir(old)
+
+
 def history_case(_=None):
     """Two directory trees with the same layout, same file sizes and same mtimes (like the Nix store), visited one
     after the other in ONE process with relatively spelled entry paths: the second visit must read the second tree."""
@@ -141,7 +184,16 @@ def run(tier, seed):
     with mp.get_context("fork").Pool(12) as pool:
         res = pool.map(eval_case, items, chunksize=1)
         hist = pool.apply(history_case)
+        citems = [(a, b, sp) for a in ("root", "parent", "sub", "unrelated") for b in ("root", "unrelated", "deep", "parent") if a != b
+                  for sp in ("absolute",)]
+        cres = pool.map(chdir_case, citems, chunksize=1)
     vio = []
+    for it, bad in zip(citems, cres):
+        for b in bad:
+            sig = f"{b}|parsed-under={it[0]}|looked-up-under={it[1]}"
+            vio.append(dict(check="imports-chdir", signature=sig, what=f"C17 lookup {b}: entry parsed (absolute path) with cwd={it[0]}, imports followed with cwd={it[1]}",
+                            has_input=True, inputs={"chdir": list(it)},
+                            failing_input={"inputs": {"cwd_at_parse": it[0], "cwd_at_lookup": it[1], "lookup": b}, "observed": b, "origin": "generated layout"}))
     for b in hist:
         vio.append(dict(check="imports-history", signature=b, what=f"C17 {b}: a second tree of the same layout visited later in the same process", has_input=True,
                         inputs={"history": True}, failing_input={"inputs": {"scenario": "two same-layout trees, chdir between, relative entry"}, "observed": b, "origin": "generated layout"}))
@@ -151,7 +203,7 @@ def run(tier, seed):
             vio.append(dict(check="imports", signature=sig, what=f"C17 lookup {b} with cwd={it[0]}, entry spelled {it[1]}", has_input=True,
                             inputs={"cwd": it[0], "spelling": it[1]},
                             failing_input={"inputs": {"cwd": it[0], "spelling": it[1], "lookup": b}, "observed": b, "origin": "generated layout"}))
-    n = len(items) * len(LOOKUPS)
+    n = (len(items) + len(citems)) * len(LOOKUPS)
     return dict(evaluations=n, distinct_nontrivial=n,
                 rule="a generated directory tree (sibling, child, parent, ./ and ../, absolute, parenthesised, chains of 1-4 hops through three "
                      "directories, decoy files of the same names elsewhere) x 4 working directories x 3 spellings of the entry path x 12 lookups "
@@ -160,6 +212,13 @@ def run(tier, seed):
 
 
 def replay(v):
+    if v["inputs"].get("chdir"):
+        bad = chdir_case(tuple(v["inputs"]["chdir"]))
+        print("chdir ->", bad)
+        if bad:
+            print("VIOLATION property=C17 replay=<given>")
+            return 1
+        return 0
     if v["inputs"].get("history"):
         bad = history_case()
         print("history ->", bad)
